@@ -11,6 +11,7 @@ pub mod c10;
 pub mod c11;
 pub mod c12;
 pub mod c13;
+pub mod c15;
 pub mod c18;
 pub mod c19;
 pub mod c20;
@@ -25,6 +26,7 @@ pub mod c31;
 pub mod c32;
 pub mod c37;
 pub mod c38;
+pub mod c39;
 pub mod c40;
 pub mod docpool;
 
@@ -74,11 +76,15 @@ pub fn run(prop: &str, args: &Args) -> i32 {
         "C12" => c12::run(args),
         "C13" => c13::run_c13(args),
         "C14" => c13::run_c14(args),
+        "C15" => c15::run_c15(args),
+        "C16" => c15::run_c16(args),
+        "C17" => c15::run_c17(args),
         "C18" => c18::run(args),
         "C19" => c19::run(args),
         "C20" => c20::run_c20(args),
         "C21" => c20::run_c21(args),
         "C22" => c20::run_c22(args),
+        "C23" => c15::run_c23(args),
         "C24" => c24::run(args),
         "C25" => c25::run(args),
         "C26" => c26::run(args),
@@ -90,6 +96,7 @@ pub fn run(prop: &str, args: &Args) -> i32 {
         "C32" => c32::run(args),
         "C37" => c37::run(args),
         "C38" => c38::run(args),
+        "C39" => c39::run(args),
         "C40" => c40::run(args),
         _ => {
             eprintln!("unknown property {}", prop);
